@@ -29,3 +29,4 @@ char* strstr(const char* h, const char* n) {
   return (char*)0;
 }
 char* strchr(const char* s, int c) { size_t i = 0; while (1) { if (s[i] == (char)c) return (char*)(s + i); if (s[i] == 0) return (char*)0; i++; } }
+void* memchr(const void* s, int c, size_t n) { const unsigned char* p = s; for (size_t i = 0; i < n; i++) { if (p[i] == (unsigned char)c) return (void*)(p + i); } return NULL; }
